@@ -34,7 +34,7 @@ def check(prop, tier, seed):
     rep = Report(prop, tier, seed)
     n = common.tier_n(tier)
     items = common.choose_items(prop, tier, seed, n, select=_select(prop), mode_fraction=MODE_FRACTION[prop],
-                                prior_fraction=0.08)
+                                prior_fraction=0.08, mode_cap=(150 if tier == "quick" else 500) if prop == "C05" else 2000)
     if prop == "C10":
         # extended population sizes (odd, not multiples of group counts); audited separately (audit/ext_v2.json)
         import random as _r
